@@ -186,7 +186,20 @@ func isFloatType(t types.Type) bool {
 }
 
 // comps lists the SMT components of a non-struct type.
+// opaque types: library structs that the model treats as tokens (one integer id) whose behaviour
+// is given only by assumed contracts and ghost fields.
+func isOpaque(t types.Type) bool {
+	switch shortTypeKey(t) {
+	case "reflect.Value", "reflect.StructField", "reflect.Method":
+		return true
+	}
+	return false
+}
+
 func comps(t types.Type) []comp {
+	if isOpaque(t) {
+		return []comp{{"", SInt}}
+	}
 	switch u := t.Underlying().(type) {
 	case *types.Basic:
 		if isBoolType(t) {
@@ -237,6 +250,9 @@ func flatten(v *Val) []*Term {
 
 // unflatten builds a value of type t from components (consumes from ts, returns rest).
 func unflatten(t types.Type, ts []*Term) (*Val, []*Term) {
+	if isOpaque(t) {
+		return &Val{K: VScalar, T: t, X: ts[0]}, ts[1:]
+	}
 	switch u := t.Underlying().(type) {
 	case *types.Slice:
 		return &Val{K: VSlice, T: t, Ref: ts[0], Off: ts[1], Len: ts[2], Cap: ts[3]}, ts[4:]
@@ -306,6 +322,9 @@ func typeInv(v *Val) []*Term {
 }
 
 func zeroVal(t types.Type) *Val {
+	if isOpaque(t) {
+		return scalar(t, Num(0))
+	}
 	switch u := t.Underlying().(type) {
 	case *types.Basic:
 		if isBoolType(t) {
